@@ -381,7 +381,7 @@ int EGLPNUM_TYPENAME_ILLraw_add_sos (
 		lp->sos_setsize += 1000;
 		if (lp->sos_setsize < lp->nsos + 1)
 			lp->sos_setsize = lp->nsos + 1;
-		lp->sos_set = EGrealloc (lp->sos_set, sizeof (EGLPNUM_TYPENAME_sosptr *) * lp->sos_setsize);
+		lp->sos_set = EGrealloc (lp->sos_set, sizeof (EGLPNUM_TYPENAME_sosptr) * lp->sos_setsize);
 		//if (ILLutil_reallocrus_scale ((void **) &lp->sos_set,
 		//                              &lp->sos_setsize, lp->nsos + 1, 1.3,
 		//                              sizeof (EGLPNUM_TYPENAME_sosptr *)))
